@@ -162,6 +162,15 @@ def prelude(run, report=(), order="others_first"):
                   "SO3EulerB321": L.SO3EulerB321, "SE3Quat": L.SE3Quat, "SE3Mrp": L.SE3Mrp, "SE23Quat": L.SE23Quat, "SE23Mrp": L.SE23Mrp}
         for name, G in groups.items():
             try:
+                try:            # first use of every element-level method: exp of a structurally EMPTY algebra element (sparse parameters)
+                    Z = G.algebra.elem(ca.SX(G.algebra.n_param, 1)).exp(G)
+                    for meth_ in ("left_jacobian", "right_jacobian", "to_Matrix", "Ad", "inverse", "log"):
+                        try:
+                            getattr(Z, meth_)()
+                        except Exception:   # noqa
+                            pass
+                except Exception:           # noqa
+                    pass
                 E = G.identity()
                 M = num(E.to_Matrix()); tick()
                 if M.shape[0] != M.shape[1] or np.max(np.abs(M - np.eye(M.shape[0]))) > tol:
@@ -172,6 +181,11 @@ def prelude(run, report=(), order="others_first"):
                 Mi = num(E.inverse().to_Matrix()); tick()
                 if np.max(np.abs(Mi - np.eye(M.shape[0]))) > tol:
                     bad("identity", f"{name}/identity/inverse", "identity^-1 is not the identity", {"group": name, "got": Mi.tolist()})
+                for meth_ in ("left_jacobian", "right_jacobian", "left_jacobian_inv", "right_jacobian_inv", "Ad", "log"):
+                    try:        # then the identity element itself
+                        getattr(E, meth_)()
+                    except Exception:       # noqa
+                        pass
             except NotImplementedError:
                 pass
             except Exception as ex:     # noqa
